@@ -21,6 +21,7 @@ import Distill.Model.Filters
 import Distill.Model.TextRender
 import Distill.Model.MediaRender
 import Distill.Model.Root
+import Distill.Model.Terms
 namespace Distill.Slices
 open Distill Distill.Proto
 
@@ -506,6 +507,21 @@ def rootselectSlice : P String := do
   | none => pure "err"
   | some e => pure s!"{e.id} {(extractorRoot e).id}"
 
+/-- `terms text firstURL` → whether `addNonLinkTextIfValid` reports a number, and the groups it
+leaves when the current group already holds link number 1 -/
+def termsSlice : P String := do
+  let text ← str; let u ← str
+  let ops := [Pg.GOp.addGroup, Pg.GOp.add { num := 1, url := u }] ++ Pg.textOps text.toList
+  let m := Pg.runOps ops
+  pure s!"{bstr (Pg.textAdded text.toList)} {" ".intercalate (m.groups.map (fun g => s!"<{g.deltaSign}:{",".intercalate (g.list.map pinfoStr)}>"))}"
+
+/-- `linknum text` → the page number `linkTextToNumber` reads (0 … 100), or `-` -/
+def linknumSlice : P String := do
+  let text ← str
+  match Pg.linkTextToNumber text.toList with
+  | some n => if 0 ≤ n && n ≤ 100 then pure s!"{n}" else pure "-"
+  | none => pure "-"
+
 def outElP : P OutEl := do
   let c ← bool; let h ← str; let t ← str
   pure { content := c, html := h.toList, text := t.toList }
@@ -524,6 +540,8 @@ def dispatch (slice : String) : Option (P String) :=
   | "dedupe" => some dedupeSlice
   | "mediarender" => some mediarenderSlice
   | "rootselect" => some rootselectSlice
+  | "terms" => some termsSlice
+  | "linknum" => some linknumSlice
   | "docfilters" => some docfilters
   | "tableclass" => some tableclass
   | "rootdomain" => some rootdomain
